@@ -227,7 +227,8 @@ def run(R):
                       'real arithmetic in the theorems; rounding is covered by the oracle tolerances']
     conv.validate_conversions(R, NAMES, R.n(120, 2500))
     n = R.n(600, 30000)
-    for name, bad in (('tensor', tensor_oracle(R, C, n)), ('params', params_oracle(R, C, n))):
+    for name, bad in (('tensor', tensor_oracle(R, C, n)), ('params', params_oracle(R, C, n)),
+                      ('batches', conv.batch_oracle(R, C, ['MT6_Tape', 'MT6_TNPE'], R.n(4, 60)))):
         if bad:
             R.violation('Tape / six-vector round trip fails (%s)' % bad['check'], bad)
             break
@@ -242,6 +243,8 @@ def run(R):
 def replay(R, body):
     C = conv.impl()
     rp = body['replay']
+    if str(rp.get('check', '')).startswith('batch-of-'):
+        return conv.batch_replay(C, rp)
     if 'params' in rp and 'MT6' not in rp:
         par = rp['params']
         v = np.asarray(C.Tape_MT6(*par), dtype=float).flatten()
